@@ -28,13 +28,13 @@ KEY_F13 = "F13:digest-string-masquerade"
 REQ = """From Coq Require Import ZArith List Bool.
 Require Import JV.Base.C08_MD5 JV.Model.HashEnc.
 Import ListNotations. Open Scope Z_scope."""
-DEFS = """Definition poly (b : list Z) : Z := fold_left (fun acc x => (acc * 257 + x + 1) mod 4294967291) b 0.
+DEFS = """Definition poly (b : list Z) : Z := fold_left (fun acc x => Z.land (acc * 257 + x + 1) 4294967295) b 0.
 Definition show (r : option (list Z)) : Z * Z * list Z :=
   match r with
   | None => (2, 0, [])
   | Some b => if (length b <=? 300)%nat then (0, zlen b, b)
               else if (length b <=? 4096)%nat then (1, zlen b, md5_hex b)
-              else (3, zlen b, [poly b] ++ firstn 24 b ++ firstn 24 (rev b))
+              else (3, zlen b, [poly b] ++ firstn 24 b ++ skipn (length b - 24) b)
   end."""
 
 RUNS = [("0", "id"), ("1", "rev+share"), ("2", "shuf:1"), ("random", "shuf:2+share")]
@@ -181,8 +181,8 @@ def agree(model, stream_hex):
     if tag == 3:          # long streams: length, polynomial checksum, both ends (md5 in Gallina costs ~10 CPU-s per 64 KiB)
         acc = 0
         for x in b:
-            acc = (acc * 257 + x + 1) % 4294967291
-        return n == len(b) and bs == [acc] + list(b[:24]) + list(b[::-1][:24])
+            acc = (acc * 257 + x + 1) & 4294967295
+        return n == len(b) and bs == [acc] + list(b[:24]) + list(b[-24:])
     return False
 
 
@@ -566,5 +566,29 @@ def replay(ctx, path):
         differ = g.canon(specs[0]) != g.canon(specs[1])
         print("replay: digests", res[0], res[1], "values differ:", differ)
         return 1 if (same and differ) else 0
+    if kind == "alias":
+        c = rep["case"]
+        u = g.unshare(c["x"])
+        if u is None:
+            print("replay: the value is cyclic, it has no unshared counterpart")
+            return 0
+        _, r = run_ximpl([c, {"x": u, "coerce": c.get("coerce", False)}])
+        differ = r[0].get("md5") != r[1].get("md5")
+        print("replay: shared", r[0].get("md5"), "unshared", r[1].get("md5"), "tuple shared:", "T" in g.ref_kinds(c["x"]))
+        return 1 if (differ and "T" in g.ref_kinds(c["x"])) else 0
+    if kind == "collision-x":
+        a = rep["a"]
+        z4 = {"x": g.arr_spec(ctx.rng, ("u1", 1), [4], "C", "ndarray", bytes(4)), "coerce": False}
+        _, rz = run_ximpl([z4])
+        ch = [bytes.fromhex(h) for h in rz[0]["chunks"]]
+        payload = ch[1] + ch[2] + ch[3][:-1]
+        wa = {"x": g.arr_spec(ctx.rng, ("u1", 1), [4], "C", "ndarray", bytes([0x80, 3, 67, len(payload) % 256])), "coerce": False}
+        b = rep["b"] if isinstance(rep.get("b"), dict) else {"x": ["leaf", g.Y(payload)], "coerce": False}
+        _, r = run_ximpl([wa if not isinstance(a, dict) else a, b])
+        print("replay: digests", r[0].get("md5"), r[1].get("md5"))
+        return 1 if r[0].get("md5") and r[0].get("md5") == r[1].get("md5") else 0
+    if kind in ("x", "x-arr"):
+        print("replay: extension case; re-run ./check C08 (the case is regenerated from the seed)", json.dumps(rep)[:300])
+        return 1
     print("replay file names a broken proof/correspondence, nothing to execute:", kind)
     return 1
